@@ -10,6 +10,12 @@ static void dev_child(const void *job, size_t n) {
 	(void) job; (void) n;
 	hx_child_begin(NULL, 0, 0, NULL, 0, 0);
 	cfg_install_std();
+	if (getenv("VERIF_CFG_DIR")) {
+		static char txt[3][1 << 16]; const char *fn[3] = {"bidib_board_config.yml", "bidib_track_config.yml", "bidib_train_config.yml"}; const char *t[3] = {0, 0, 0};
+		for (int i = 0; i < 3; i++) { char path[400]; snprintf(path, sizeof path, "%s/%s", getenv("VERIF_CFG_DIR"), fn[i]); FILE *f = fopen(path, "r"); if (f) { size_t n = fread(txt[i], 1, sizeof txt[i] - 1, f); txt[i][n] = 0; fclose(f); t[i] = txt[i]; } }
+		env_set_cfg(t[0], t[1], t[2]);
+	}
+	if (getenv("VERIF_LOG")) env_log_to_stderr = 1;
 	int rc = hx_start_normal(0);
 	hx_quiesce();
 	res_printf("X start rc=%d t=%llu us log=%d malformed=%ld\n", rc, (unsigned long long) vs_now_us(), SB.nlog, SB.malformed);
